@@ -1,0 +1,13 @@
+//go:build !verif
+
+// Package verifhook holds the observation points used by the external verification harness.
+// Without the "verif" build tag every function is an empty stub that the compiler inlines away.
+package verifhook
+
+import "github.com/nulab/autog/internal/graph"
+
+func GreedySeed() (int64, bool) { return 0, false }
+
+func NSDone(balance, nodes, iters, maxitr int, negLeft bool) {}
+
+func AfterPhase(phase int, g *graph.DGraph) {}
